@@ -299,10 +299,10 @@ func checkFetchersValidate(c *Ctx, rule string) {
 		}
 	}
 	checkValidate(c, validate, rule)
+	propC03LoadLinkage(c, c.W.Fn("shovel", "(*Task).load"))
 }
 
 func checkValidate(c *Ctx, v *ssa.Function, rule string) {
-	w := c.W
 	var blocks, pStart, pLimit *ssa.Parameter
 	for _, p := range v.Params {
 		switch {
@@ -426,12 +426,57 @@ func checkValidate(c *Ctx, v *ssa.Function, rule string) {
 	// in a helper) with affine index forms and the loop's index range, so that
 	// i-1/i from 1, i/i+1 from 0, range over blocks[1:] and hoisted bounds are
 	// all the same thing.
+	linkOK, linkDetail := linkageEveryPair(c, linkageSpec{
+		reg: NewRegion(v), aff: &affEnv{reg: NewRegion(v)},
+		isBlocks:  func(x ssa.Value) bool { return x == ssa.Value(blocks) || sameVar(x, blocks) },
+		blocksRep: blocks,
+	})
+	c.Check(rule, "validate/linkage-every-adjacent-pair", v.Pos(), linkOK, linkDetail)
+	// success return only after all checks: `return nil` not reachable when any check fails is implied by nonNilRet;
+	// additionally the nil return must be dominated by the emptiness and first/last tests
+	for _, r := range returnsOf(v) {
+		vals := returnValues(r)
+		if len(vals) == 1 && isNilConst(vals[0]) {
+			var all []Edge
+			_ = all
+			okDom := true
+			for _, es := range [][]Edge{emptyEdges, firstNe, lastNe} {
+				// the complementary edges must guard the success return: cut the failing edges is meaningless;
+				// instead require that the test's block dominates the return
+				dom := false
+				for _, e := range es {
+					if reg0.Dominates(terminator(e.From), r) {
+						dom = true
+					}
+				}
+				if !dom {
+					okDom = false
+				}
+			}
+			c.Check(rule, "validate/return-nil-after-all-tests", instrPos(r), okDom, "the success return is dominated by the emptiness, first-number and last-number tests")
+		}
+	}
+}
+
+// linkageSpec: where and on what the "every adjacent pair is hash-linked" rule is evaluated.
+type linkageSpec struct {
+	reg       *Region
+	aff       *affEnv
+	isBlocks  func(ssa.Value) bool // the value is the slice under examination
+	blocksRep ssa.Value            // a value that stands for the slice (for len)
+	skipOK    []Edge               // edges on which an iteration may legitimately skip the comparison (parent hash absent)
+}
+
+// linkageEveryPair: for every k in [0, len-2], blocks[k+1].Header.Parent is
+// compared with the hash of blocks[k], and a mismatch makes the region's root
+// return a non-nil error.
+func linkageEveryPair(c *Ctx, sp linkageSpec) (bool, string) {
+	w := c.W
 	fHeader, fParent, fHash := w.Field("eth", "Block", "Header"), w.Field("eth", "Header", "Parent"), w.Field("eth", "Header", "Hash")
-	reg := NewRegion(v)
-	aff := &affEnv{reg: reg}
+	reg, aff := sp.reg, sp.aff
 	elemIdx := func(x ssa.Value) (ssa.Value, bool) {
 		r := reg.Resolve(stripConv(x))
-		if sl, idx, ok := elemOf(r); ok && sameVar(reg.Resolve(stripConv(sl)), blocks) {
+		if sl, idx, ok := elemOf(r); ok && sp.isBlocks(reg.Resolve(stripConv(sl))) {
 			return idx, true
 		}
 		return nil, false
@@ -460,7 +505,7 @@ func checkValidate(c *Ctx, v *ssa.Function, rule string) {
 					return nil, false // an iteration may keep the old pointer: pairs would not be adjacent
 				}
 				ia, isIA := stripConv(lf.Val).(*ssa.IndexAddr)
-				if !isIA || !sameVar(reg.Resolve(stripConv(ia.X)), blocks) {
+				if !isIA || !sp.isBlocks(reg.Resolve(stripConv(ia.X))) {
 					return nil, false
 				}
 				if _, isC := ia.Index.(*ssa.Const); isC && w.init == nil {
@@ -555,7 +600,7 @@ func checkValidate(c *Ctx, v *ssa.Function, rule string) {
 			if !k.isConst() {
 				continue
 			}
-			wantHi := aff.lenOf(blocks, 0).sub(konst(1))
+			wantHi := aff.lenOf(sp.blocksRep, 0).sub(konst(1))
 			if shifted && hashWalk != nil && !linEq(aff.Of(hashWalk.init), lo.add(k)) {
 				linkDetail = "the pointer to the previous block does not start at the block before the first one compared"
 				continue
@@ -577,7 +622,7 @@ func checkValidate(c *Ctx, v *ssa.Function, rule string) {
 			everyIter := lifted != nil
 			if everyIter {
 				for _, ed := range enter {
-					if hit, _ := reach(Site{ed.To, -1}, func(in ssa.Instruction) bool { return in.Block() == header }, newCuts().addInstr(lifted)); hit {
+					if hit, _ := reach(Site{ed.To, -1}, func(in ssa.Instruction) bool { return in.Block() == header }, newCuts().addInstr(lifted).addEdges(sp.skipOK)); hit {
 						everyIter = false
 					}
 				}
@@ -596,8 +641,8 @@ func checkValidate(c *Ctx, v *ssa.Function, rule string) {
 		if !covered {
 			continue
 		}
-		// a mismatch makes validate return a non-nil error: in the function of
-		// the comparison, and then at each call site up to validate
+		// a mismatch makes the function return a non-nil error: in the function of
+		// the comparison, and then at each call site up to the function
 		_, f := boolEdges(call)
 		good := len(f) > 0
 		nonNilFrom := func(edges []Edge, known map[ssa.Value]bool) bool {
@@ -630,35 +675,169 @@ func checkValidate(c *Ctx, v *ssa.Function, rule string) {
 		if good {
 			linkOK = true
 		} else {
-			linkDetail = "a mismatching pair does not make validate return an error on every path"
+			linkDetail = "a mismatching pair does not make the function return an error on every path"
 		}
 	}
 	if linkOK {
 		linkDetail = "every adjacent pair (k, k+1), k = 0 … len-2, is compared and a mismatch is an error"
 	}
-	c.Check(rule, "validate/linkage-every-adjacent-pair", v.Pos(), linkOK, linkDetail)
-	// success return only after all checks: `return nil` not reachable when any check fails is implied by nonNilRet;
-	// additionally the nil return must be dominated by the emptiness and first/last tests
-	for _, r := range returnsOf(v) {
-		vals := returnValues(r)
-		if len(vals) == 1 && isNilConst(vals[0]) {
-			var all []Edge
-			_ = all
-			okDom := true
-			for _, es := range [][]Edge{emptyEdges, firstNe, lastNe} {
-				// the complementary edges must guard the success return: cut the failing edges is meaningless;
-				// instead require that the test's block dominates the return
-				dom := false
-				for _, e := range es {
-					if reg0.Dominates(terminator(e.From), r) {
-						dom = true
+	return linkOK, linkDetail
+}
+
+// stableLoads: the loads of the local variable al (a cell that closures may
+// capture) after which the variable is not written any more: no store in the
+// function is reachable from the load, no closure that writes the variable is
+// created after it, and – if such closures exist – a join (errgroup/WaitGroup
+// Wait) dominates the load.  All these loads see the same value.
+func stableLoads(al *ssa.Alloc) []*ssa.UnOp {
+	fn := al.Parent()
+	var stores []ssa.Instruction
+	var writers []ssa.Instruction // MakeClosure instructions of closures that (transitively) store to the cell
+	var joins []ssa.Instruction
+	var storesTo func(f *ssa.Function, fv ssa.Value, d int) bool
+	storesTo = func(f *ssa.Function, cell ssa.Value, d int) bool {
+		found := false
+		allInstrs(f, func(in ssa.Instruction) {
+			switch x := in.(type) {
+			case *ssa.Store:
+				if x.Addr == cell {
+					found = true
+				}
+			case *ssa.MakeClosure:
+				if d < 3 {
+					inner := x.Fn.(*ssa.Function)
+					for i, b := range x.Bindings {
+						if b == cell && storesTo(inner, inner.FreeVars[i], d+1) {
+							found = true
+						}
 					}
 				}
-				if !dom {
-					okDom = false
+			}
+		})
+		return found
+	}
+	allInstrs(fn, func(in ssa.Instruction) {
+		switch x := in.(type) {
+		case *ssa.Store:
+			if x.Addr == ssa.Value(al) {
+				stores = append(stores, x)
+			}
+		case *ssa.MakeClosure:
+			inner := x.Fn.(*ssa.Function)
+			for i, b := range x.Bindings {
+				if b == ssa.Value(al) && storesTo(inner, inner.FreeVars[i], 0) {
+					writers = append(writers, x)
 				}
 			}
-			c.Check(rule, "validate/return-nil-after-all-tests", instrPos(r), okDom, "the success return is dominated by the emptiness, first-number and last-number tests")
+		case *ssa.Call:
+			switch calleeName(x) {
+			case "(*golang.org/x/sync/errgroup.Group).Wait", "(*sync.WaitGroup).Wait":
+				joins = append(joins, x)
+			}
+		}
+	})
+	var out []*ssa.UnOp
+	for _, ref := range *al.Referrers() {
+		ld, ok := ref.(*ssa.UnOp)
+		if !ok || ld.Op != token.MUL {
+			continue
+		}
+		stable := true
+		for _, st := range append(append([]ssa.Instruction{}, stores...), writers...) {
+			if r, _ := reach(siteOf(ld), isInstr(st), nil); r {
+				stable = false
+			}
+		}
+		if len(writers) > 0 {
+			joined := false
+			for _, j := range joins {
+				if dominatesInstr(j, ld) {
+					joined = true
+				}
+			}
+			stable = stable && joined
+		}
+		if stable {
+			out = append(out, ld)
 		}
 	}
+	return out
+}
+
+// propC03LoadLinkage (R3.7): the partitions of a step are fetched independently;
+// load must verify parent/hash linkage of every adjacent pair of the slice it
+// returns (F-20: a reorg between two partition fetches).
+func propC03LoadLinkage(c *Ctx, ld *ssa.Function) {
+	const rule = "R3.7"
+	c.Rule(rule, "load verifies parent/hash linkage of every adjacent pair of the blocks it returns (partitions are fetched independently)", 1)
+	w := c.W
+	reg := NewRegion(ld)
+	// the slice under examination: what load returns on success
+	var cell *ssa.Alloc
+	for _, rv := range reg.SuccessReturns() {
+		v := stripConv(rv.Vals[0])
+		if u, ok := v.(*ssa.UnOp); ok && u.Op == token.MUL {
+			if al, ok := u.X.(*ssa.Alloc); ok {
+				cell = al
+			}
+		}
+	}
+	if cell == nil {
+		// returned directly as an SSA value (no captured variable): not the shape on today's tree
+		c.Violation(rule, "load/linkage-every-adjacent-pair", ld.Pos(), "cannot identify the variable that holds the blocks load returns")
+		return
+	}
+	loads := stableLoads(cell)
+	if len(loads) == 0 {
+		c.Violation(rule, "load/linkage-every-adjacent-pair", ld.Pos(), "the returned blocks are still being written when load examines them")
+		return
+	}
+	stable := map[ssa.Value]bool{}
+	for _, l := range loads {
+		stable[l] = true
+	}
+	rep := ssa.Value(loads[0])
+	canon := func(v ssa.Value) ssa.Value {
+		if stable[v] {
+			return rep
+		}
+		return v
+	}
+	aff := &affEnv{reg: reg, canon: canon}
+	// an iteration may skip the comparison when the parent hash is not part of the data plan:
+	// the edges on which len(<block>.Header.Parent) == 32 is false
+	fHeader, fParent := w.Field("eth", "Block", "Header"), w.Field("eth", "Header", "Parent")
+	var skip []Edge
+	for _, f := range reg.Funcs() {
+		skip = append(skip, absentEdges(f, fHeader, fParent)...)
+	}
+	ok, detail := linkageEveryPair(c, linkageSpec{
+		reg: reg, aff: aff,
+		isBlocks:  func(x ssa.Value) bool { return stable[stripConv(x)] },
+		blocksRep: rep,
+		skipOK:    skip,
+	})
+	c.Check(rule, "load/linkage-every-adjacent-pair", ld.Pos(), ok, detail)
+}
+
+// absentEdges: the edges on which `len(x.Header.Parent) == 32` is known false
+func absentEdges(f *ssa.Function, fHeader, fParent *types.Var) []Edge {
+	var out []Edge
+	is := func(b *ssa.BinOp, op token.Token) bool {
+		n, ok := constInt(b.Y)
+		if !ok || n != 32 || b.Op != op {
+			return false
+		}
+		x, ok := lenArg(b.X)
+		if !ok {
+			return false
+		}
+		_, chain := fieldChain(x)
+		return chainIs(chain, fHeader, fParent)
+	}
+	_, f1 := cmpEdges(f, func(b *ssa.BinOp) bool { return is(b, token.EQL) })
+	t2, _ := cmpEdges(f, func(b *ssa.BinOp) bool { return is(b, token.NEQ) })
+	out = append(out, f1...)
+	out = append(out, t2...)
+	return out
 }
